@@ -23,7 +23,8 @@
      WDv k      ~async_rw_mutex_shared_state<T>: value.reset()
      WDn k      ~async_rw_mutex_shared_state_base: take next_state
      WDx k      done(): op_state_head.exchange(this), then the queued ops in list order (hook 403)
-     WMv        ~async_rw_mutex: value.reset()
+     WMv        ~async_rw_mutex: value.reset() (guarded by [malive] and the ghost flag [mvheld]:
+                the mutex's reference to the value is released once, by its destructor)
    Commands (the program, chosen freely by the oracle): request read / readwrite, start a
    sender (connect+start; [auto] = the receiver drops the wrapper inside set_value, which is
    what start_detached from ~sender does), drop a reference without starting (operation
@@ -63,7 +64,8 @@ Inductive tstate :=
 | TDead.
 
 (* tauto: the receiver drops the wrapper inside set_value; tuse: it uses the value first *)
-Record token := { tgrp : nat; treq : nat; tauto : bool; tuse : bool; tst : tstate }.
+(* tstarted is ghost: set by CStart only (the access was connected and started) *)
+Record token := { tgrp : nat; treq : nat; tauto : bool; tuse : bool; tstarted : bool; tst : tstate }.
 
 Inductive hd := HSent | HList (l : list nat).
 Inductive nxt := NSent | NNull | NOp (e : nat).
@@ -86,6 +88,7 @@ Record shared := {
   tok : nat -> token; ntok : nat;
   mstate : option nat; mprev : kind; malive : bool; nreq : nat;
   vrefs : nat; vfreed : bool; ver : nat;
+  mvheld : bool;            (* ghost: the mutex's own reference to the value not yet released *)
   bad : bool;
   elog : list ev            (* newest first *)
 }.
@@ -108,7 +111,7 @@ Definition fset {A} (f : nat -> A) (k : nat) (a : A) : nat -> A :=
   fun j => if Nat.eqb j k then a else f j.
 
 Definition set_st (tk : token) (s : tstate) : token :=
-  {| tgrp := tgrp tk; treq := treq tk; tauto := tauto tk; tuse := tuse tk; tst := s |}.
+  {| tgrp := tgrp tk; treq := treq tk; tauto := tauto tk; tuse := tuse tk; tstarted := tstarted tk; tst := s |}.
 Definition set_refs (g : group) (n : nat) : group :=
   {| gkind := gkind g; refs := n; head := head g; linked := linked g; vheld := vheld g; gphase := gphase g; gown := gown g |}.
 Definition set_head (g : group) (h : hd) : group :=
@@ -129,47 +132,52 @@ Definition nxt_eqb (a b : nxt) : bool :=
   | NSent, NSent => true | NNull, NNull => true | NOp x, NOp y => Nat.eqb x y | _, _ => false
   end.
 
-Definition dead_tok : token := {| tgrp := 0; treq := 0; tauto := false; tuse := false; tst := TDead |}.
+Definition dead_tok : token := {| tgrp := 0; treq := 0; tauto := false; tuse := false; tstarted := false; tst := TDead |}.
 Definition dead_grp : group :=
   {| gkind := KW; refs := 0; head := HList []; linked := false; vheld := false; gphase := 3; gown := 0 |}.
 
 Definition rw_init : shared :=
   {| grp := fun _ => dead_grp; ngrp := 0; tok := fun _ => dead_tok; ntok := 0;
      mstate := None; mprev := KW; malive := true; nreq := 0;
-     vrefs := 1; vfreed := false; ver := 0; bad := false; elog := [] |}.
+     vrefs := 1; vfreed := false; ver := 0; mvheld := true; bad := false; elog := [] |}.
 
 (* record updates *)
 Definition with_grp (g : shared) (gs : nat -> group) : shared :=
   {| grp := gs; ngrp := ngrp g; tok := tok g; ntok := ntok g; mstate := mstate g; mprev := mprev g;
-     malive := malive g; nreq := nreq g; vrefs := vrefs g; vfreed := vfreed g; ver := ver g;
+     malive := malive g; nreq := nreq g; vrefs := vrefs g; vfreed := vfreed g; ver := ver g; mvheld := mvheld g;
      bad := bad g; elog := elog g |}.
 Definition with_tok (g : shared) (ts : nat -> token) : shared :=
   {| grp := grp g; ngrp := ngrp g; tok := ts; ntok := ntok g; mstate := mstate g; mprev := mprev g;
-     malive := malive g; nreq := nreq g; vrefs := vrefs g; vfreed := vfreed g; ver := ver g;
+     malive := malive g; nreq := nreq g; vrefs := vrefs g; vfreed := vfreed g; ver := ver g; mvheld := mvheld g;
      bad := bad g; elog := elog g |}.
 Definition with_bad (g : shared) (b : bool) : shared :=
   {| grp := grp g; ngrp := ngrp g; tok := tok g; ntok := ntok g; mstate := mstate g; mprev := mprev g;
-     malive := malive g; nreq := nreq g; vrefs := vrefs g; vfreed := vfreed g; ver := ver g;
+     malive := malive g; nreq := nreq g; vrefs := vrefs g; vfreed := vfreed g; ver := ver g; mvheld := mvheld g;
      bad := bad g || b; elog := elog g |}.
 Definition with_ev (g : shared) (l : list ev) : shared :=
   {| grp := grp g; ngrp := ngrp g; tok := tok g; ntok := ntok g; mstate := mstate g; mprev := mprev g;
-     malive := malive g; nreq := nreq g; vrefs := vrefs g; vfreed := vfreed g; ver := ver g;
+     malive := malive g; nreq := nreq g; vrefs := vrefs g; vfreed := vfreed g; ver := ver g; mvheld := mvheld g;
      bad := bad g; elog := l |}.
 Definition with_ver (g : shared) (v : nat) : shared :=
   {| grp := grp g; ngrp := ngrp g; tok := tok g; ntok := ntok g; mstate := mstate g; mprev := mprev g;
-     malive := malive g; nreq := nreq g; vrefs := vrefs g; vfreed := vfreed g; ver := v;
+     malive := malive g; nreq := nreq g; vrefs := vrefs g; vfreed := vfreed g; ver := v; mvheld := mvheld g;
      bad := bad g; elog := elog g |}.
 Definition with_val (g : shared) (n : nat) (fr : bool) : shared :=
   {| grp := grp g; ngrp := ngrp g; tok := tok g; ntok := ntok g; mstate := mstate g; mprev := mprev g;
-     malive := malive g; nreq := nreq g; vrefs := n; vfreed := fr; ver := ver g;
+     malive := malive g; nreq := nreq g; vrefs := n; vfreed := fr; ver := ver g; mvheld := mvheld g;
      bad := bad g; elog := elog g |}.
 Definition with_mutex (g : shared) (ms : option nat) (mp : kind) (al : bool) (nr : nat) : shared :=
   {| grp := grp g; ngrp := ngrp g; tok := tok g; ntok := ntok g; mstate := ms; mprev := mp;
-     malive := al; nreq := nr; vrefs := vrefs g; vfreed := vfreed g; ver := ver g;
+     malive := al; nreq := nr; vrefs := vrefs g; vfreed := vfreed g; ver := ver g; mvheld := mvheld g;
      bad := bad g; elog := elog g |}.
 Definition with_ngrp (g : shared) (n : nat) : shared :=
   {| grp := grp g; ngrp := n; tok := tok g; ntok := ntok g; mstate := mstate g; mprev := mprev g;
-     malive := malive g; nreq := nreq g; vrefs := vrefs g; vfreed := vfreed g; ver := ver g;
+     malive := malive g; nreq := nreq g; vrefs := vrefs g; vfreed := vfreed g; ver := ver g; mvheld := mvheld g;
+     bad := bad g; elog := elog g |}.
+
+Definition with_mv (g : shared) (b : bool) : shared :=
+  {| grp := grp g; ngrp := ngrp g; tok := tok g; ntok := ntok g; mstate := mstate g; mprev := mprev g;
+     malive := malive g; nreq := nreq g; vrefs := vrefs g; vfreed := vfreed g; ver := ver g; mvheld := b;
      bad := bad g; elog := elog g |}.
 
 Definition set_tst (g : shared) (e : nat) (s : tstate) : shared :=
@@ -181,7 +189,7 @@ Definition upd_grp (g : shared) (k : nat) (gr : group) : shared :=
 Definition new_tok (g : shared) (tk : token) : shared :=
   {| grp := grp g; ngrp := ngrp g; tok := fset (tok g) (ntok g) tk; ntok := S (ntok g);
      mstate := mstate g; mprev := mprev g; malive := malive g; nreq := nreq g; vrefs := vrefs g;
-     vfreed := vfreed g; ver := ver g; bad := bad g; elog := elog g |}.
+     vfreed := vfreed g; ver := ver g; mvheld := mvheld g; bad := bad g; elog := elog g |}.
 
 Definition is_sender (s : tstate) : bool := match s with TSender => true | _ => false end.
 Definition is_live (s : tstate) : bool := match s with TLive => true | _ => false end.
@@ -261,7 +269,7 @@ Definition do_work (sp : bool) (t : nat) (g : shared) (w : work) (rest : list wo
       if linked (grp g k) then
         let g1 := upd_grp g k (set_phase (set_linked (grp g k) false) 3 t) in
         let tmp := ntok g1 in
-        let g2 := new_tok g1 {| tgrp := S k; treq := 0; tauto := false; tuse := false; tst := TDone t |} in
+        let g2 := new_tok g1 {| tgrp := S k; treq := 0; tauto := false; tuse := false; tstarted := false; tst := TDone t |} in
         (g2, WDx (S k) (Some tmp) :: WRel tmp :: rest)
       else (upd_grp g k (set_phase (grp g k) 3 t), rest)
   | WDx k tmp =>
@@ -276,7 +284,8 @@ Definition do_work (sp : bool) (t : nat) (g : shared) (w : work) (rest : list wo
           (with_tok (upd_grp g1 k (set_head (grp g k) HSent)) (take_all (tok g) l t),
            map WGrant l ++ rest)
       end
-  | WMv => (do_vdec g, rest)
+  | WMv =>
+      if malive g || negb (mvheld g) then (with_bad g true, rest) else (do_vdec (with_mv g false), rest)
   end.
 
 Definition do_cmd (t : nat) (g : shared) (c : cmd) : shared * list work :=
@@ -287,19 +296,19 @@ Definition do_cmd (t : nat) (g : shared) (c : cmd) : shared * list work :=
       match kd, mprev g, mstate g with
       | KR, KR, Some k =>
           let g1 := upd_grp g k (set_refs (grp g k) (S (refs (grp g k)))) in
-          let g2 := new_tok g1 {| tgrp := k; treq := nreq g; tauto := false; tuse := false; tst := TSender |} in
+          let g2 := new_tok g1 {| tgrp := k; treq := nreq g; tauto := false; tuse := false; tstarted := false; tst := TSender |} in
           (with_mutex g2 (mstate g) (mprev g) true (S (nreq g)), [])
       | _, _, ms =>
           let k := ngrp g in
           let newg r := {| gkind := kd; refs := r; head := HList []; linked := false; vheld := true; gphase := 0; gown := 0 |} in
-          let snd_tok := {| tgrp := k; treq := nreq g; tauto := false; tuse := false; tst := TSender |} in
+          let snd_tok := {| tgrp := k; treq := nreq g; tauto := false; tuse := false; tstarted := false; tst := TSender |} in
           let gv := with_val g (S (vrefs g)) (vfreed g) in
           match ms with
           | Some p =>
               let g1 := upd_grp (upd_grp gv p (set_linked (grp g p) true)) k (newg 3) in
               let g2 := new_tok (with_ngrp g1 (S k)) snd_tok in
               let tmp := ntok g2 in
-              let g3 := new_tok g2 {| tgrp := p; treq := 0; tauto := false; tuse := false; tst := TTemp t |} in
+              let g3 := new_tok g2 {| tgrp := p; treq := 0; tauto := false; tuse := false; tstarted := false; tst := TTemp t |} in
               (with_mutex g3 (Some k) kd true (S (nreq g)), [WRel tmp])
           | None =>
               let g1 := upd_grp gv k (newg 2) in
@@ -311,7 +320,7 @@ Definition do_cmd (t : nat) (g : shared) (c : cmd) : shared * list work :=
       if Nat.ltb e (ntok g) && is_sender (tst (tok g e)) then
         (with_tok g (fset (tok g) e {| tgrp := tgrp (tok g e); treq := treq (tok g e);
                                        tauto := auto; tuse := auto && usev;
-                                       tst := TStarting t |}), [WLoad e])
+                                       tstarted := true; tst := TStarting t |}), [WLoad e])
       else (g, [])
   | CDropOp e =>
       if Nat.ltb e (ntok g) && is_sender (tst (tok g e)) then (set_tst g e (TTemp t), [WRel e])
@@ -321,7 +330,7 @@ Definition do_cmd (t : nat) (g : shared) (c : cmd) : shared * list work :=
       let k := tgrp tk in
       if Nat.ltb e (ntok g) && kind_eqb (gkind (grp g k)) KR && (is_sender (tst tk) || is_live (tst tk)) then
         let g1 := upd_grp g k (set_refs (grp g k) (S (refs (grp g k)))) in
-        (new_tok g1 {| tgrp := k; treq := treq tk; tauto := false; tuse := false; tst := tst tk |}, [])
+        (new_tok g1 {| tgrp := k; treq := treq tk; tauto := false; tuse := false; tstarted := false; tst := tst tk |}, [])
       else (g, [])
   | CRelease e =>
       if Nat.ltb e (ntok g) && is_live (tst (tok g e)) then do_rel t g e [] else (g, [])
@@ -334,7 +343,7 @@ Definition do_cmd (t : nat) (g : shared) (c : cmd) : shared * list work :=
       match mstate g with
       | Some k =>
           let tmp := ntok g in
-          let g1 := new_tok g {| tgrp := k; treq := 0; tauto := false; tuse := false; tst := TTemp t |} in
+          let g1 := new_tok g {| tgrp := k; treq := 0; tauto := false; tuse := false; tstarted := false; tst := TTemp t |} in
           (with_mutex g1 None (mprev g) false (nreq g), [WRel tmp; WMv])
       | None => (with_mutex g None (mprev g) false (nreq g), [WMv])
       end
